@@ -837,6 +837,9 @@ def c2s(ctx):
 
 
 # ---- the check ------------------------------------------------------------------------------------------------------------
+# every run of the mechanism is a chain of <= 10 states: a LIFO state queue keeps a few hundred states in memory instead of
+# a whole breadth-first level (millions of states in the thorough tier); the search stays exhaustive
+LIFO = {'dfs': True, 'jvm': ('-Xmx4g',)}
 STEPS = ('Statement', 'Compile', 'OpenConversions', 'OpenTransfer', 'OpenSummarize', 'CloseTruncate', 'CloseConversions',
          'ClearTransfer', 'ApplyFilter')
 
@@ -858,12 +861,12 @@ def run(ctx):
     ]
     # ---- MC
     if not only or 'MC' in only:
-        res = ctx.tlc('MC_Summarize', ctx.pick('MC_Summarize.cfg', 'MC_Summarize_thorough.cfg'), leg='MC')
+        res = ctx.tlc('MC_Summarize', ctx.pick('MC_Summarize.cfg', 'MC_Summarize_thorough.cfg'), leg='MC', **LIFO)
         if res.violated:
             ctx.violation('spec:' + ','.join(res.violated), 'TLC violates the period-report clauses on the mechanism',
                           {'behaviour': res.behaviour[:4000]}, 'MC')
         if not ctx.quick:
-            r = ctx.tlc('MC_Summarize', 'MC_Summarize_filters.cfg', leg='MC')
+            r = ctx.tlc('MC_Summarize', 'MC_Summarize_filters.cfg', leg='MC', **LIFO)
             if r.violated:
                 ctx.violation('spec:' + ','.join(r.violated), 'TLC violates the period-report clauses on the mechanism',
                               {'behaviour': r.behaviour[:4000]}, 'MC')
@@ -882,7 +885,7 @@ def run(ctx):
     # ---- S2C
     if not only or 'S2C' in only:
         keys = ctx.tlc('Gen_Summarize', 'Gen_SummarizeKeys.cfg', leg='GEN', workers=1).printed[0]['keys']
-        res = ctx.tlc('Gen_Summarize', ctx.pick('Gen_Summarize.cfg', 'Gen_SummarizeThorough.cfg'), leg='GEN')
+        res = ctx.tlc('Gen_Summarize', ctx.pick('Gen_Summarize.cfg', 'Gen_SummarizeThorough.cfg'), leg='GEN', **LIFO)
         if res.violated:
             ctx.violation('spec:gen:' + ','.join(res.violated), 'the generator run violates an invariant',
                           {'behaviour': res.behaviour[:4000]}, 'MC')
